@@ -12,7 +12,10 @@ sys.path[:0] = [os.path.join(ROOT, "tools"), os.path.join(ROOT, "harness")]
 props = [json.loads(l)["id"] for l in open(os.path.join(ROOT, "properties.jsonl"))]
 na = json.load(open(os.path.join(ROOT, "not_applicable.json"))) if os.path.exists(os.path.join(ROOT, "not_applicable.json")) else {}
 checks, claimed = [], set()
+validated = set(json.load(open(os.path.join(ROOT, "claimed.json"))))   # properties whose check was validated on the unchanged tree
 for pid in props:
+    if pid not in validated:
+        continue
     f = os.path.join(ROOT, "harness", "props", pid.lower() + ".py")
     if not os.path.exists(f):
         continue
